@@ -265,7 +265,7 @@ func TestVerif_C17(t *testing.T) {
 		{"ppp16-cache8", MemoryConfig{NodesCountPerPage: 16, CachedNodesCount: 8, PageFillFactor: 0.95, MaxChildrenPagesThreshold: 32}, keys4},
 		{"k32-ppp2", MemoryConfig{NodesCountPerPage: 2, CachedNodesCount: 1, PageFillFactor: 0.5, MaxChildrenPagesThreshold: 2}, keys32},
 	}
-	depth := ve.Pick(5, 7)
+	depth := ve.Pick(5, 6)
 	var cov ve.Coverage
 	cov.Exhaustive = true
 	for _, cc := range cfgs {
